@@ -1124,16 +1124,22 @@ func TestCheck(t *testing.T) {
 		replay(t, r, p)
 		return
 	}
+	// the binary of cmd/gostatsd for the server variant is built while the other parts run
+	binReady := make(chan binResult, 1)
+	go func() { b, err := buildBinary(); binReady <- binResult{b, err} }()
 	t0 := time.Now()
 	sequential(r)
 	t1 := time.Now()
 	stress(r)
 	t2 := time.Now()
 	receiverVariant(r)
+	t3 := time.Now()
+	serverVariant(r, binReady)
+	r.Extra("server_s", time.Since(t3).Seconds())
 	// measured cost per part, summed over the shards (evidence only)
 	r.Extra("sequential_s", t1.Sub(t0).Seconds())
 	r.Extra("stress_s", t2.Sub(t1).Seconds())
-	r.Extra("receiver_s", time.Since(t2).Seconds())
+	r.Extra("receiver_s", t3.Sub(t2).Seconds())
 }
 
 func replay(t *testing.T, r *mon.Run, p []byte) {
